@@ -194,6 +194,10 @@ def _r3(ctx):
         ga = {(id(o), p) for (_t, p, o) in cfg.guards(aug[0])}
         val = b.term(d.ast.value, d) if isinstance(d.ast, ast.Assign) else None
         ok_upd = gd == ga and val == cur
+        if not ok_upd and val == cur and d.ast in loop.body:
+            # updated on every iteration, after the guarded +=: where the guard did not fire the two labels are equal already
+            holder = [k_ for k_, st_ in enumerate(loop.body) if any(x is aug[0].ast for x in ast.walk(st_))]
+            ok_upd = len(holder) == 1 and holder[0] < loop.body.index(d.ast)
     ctx.check(ok_upd, fi, "the carried label becomes the current label exactly when the guard fires", role="carried:update",
               expected=f"{cname} = <current label> under the same guard as the +=",
               found="; ".join(unparse(n.ast) for n in inloop) or "no in-loop definition")
